@@ -27,7 +27,10 @@ class Ctx:
         self.nontrivial = set()        # hashes of distinct non-trivial cases
         self.samples = []              # a few cases written out
         self.dist = {}                 # distribution counters
-        self.violations = []           # concrete failing inputs on the implementation
+        self.violations = []           # concrete failing inputs on the implementation (not listed as known)
+        self.known = [f for f in common.load_known_findings()
+                      if f.get('property') == prop and f.get('status') == 'finding']
+        self.known_hits = {}           # signature -> first reproduction of a listed known finding
         self.measured = {}             # sampled (not proved) claims, kept apart
         self.oracle_evals = 0
         self.notes = []
@@ -43,8 +46,12 @@ class Ctx:
         self.nontrivial.add(common.sha(obj))
 
     def violation(self, signature, what, inp, observed, required):
-        self.violations.append({'signature': signature, 'what': what, 'input': inp,
-                                'observed': observed, 'required': required})
+        v = {'signature': signature, 'what': what, 'input': inp, 'observed': observed, 'required': required}
+        if any(f.get('signature') == signature for f in self.known):
+            # a listed known finding: recorded apart, so that searches go on looking for anything else
+            self.known_hits.setdefault(signature, v)
+            return
+        self.violations.append(v)
 
 
 def finding_matches(f, prop, v):
@@ -134,18 +141,11 @@ def main(argv=None):
         guarded(lambda: mod.oracle(ctx, budget_s=60 if tier == 'quick' else 900), 'failing-input search')
 
     # ---- verdict -----------------------------------------------------------------
-    known = common.load_known_findings()
     rc = 0
-    reported = set()
-    new_violations = []
-    for v in ctx.violations:
-        k = [f for f in known if finding_matches(f, prop, v)]
-        if k:
-            if v['signature'] not in reported:
-                print('KNOWN-FINDING: property=%s %s' % (prop, k[0].get('what', v['what'])))
-                reported.add(v['signature'])
-        else:
-            new_violations.append(v)
+    for f in ctx.known:
+        hit = f.get('signature') in ctx.known_hits
+        print('KNOWN-FINDING: property=%s %s%s' % (prop, f.get('what', ''), ' [reproduced in this run]' if hit else ' [listed; not exercised in this run]'))
+    new_violations = list(ctx.violations)
     if new_violations:
         v = new_violations[0]
         path = common.write_replay(prop, {
